@@ -36,8 +36,8 @@ theorem child_box_sub (g : Grid) (l : Nat) (hl : l < g.depth) (hres : 0 < g.res)
 
 
 /-- every hot quadrant below level 1 has a hot parent (what `insertCoord` establishes) -/
-def HotClosed (hot : Nat → Quad → Bool) : Prop :=
-  ∀ l c, 1 ≤ l → hot (l + 1) c = true → hot l ⟨c.x / 2, c.y / 2⟩ = true
+def HotClosed (depth : Nat) (hot : Nat → Quad → Bool) : Prop :=
+  ∀ l c, 1 ≤ l → l + 1 ≤ depth → hot (l + 1) c = true → hot l ⟨c.x / 2, c.y / 2⟩ = true
 
 def Found (g : Grid) (hot : Nat → Quad → Bool) (L : Seg) (l : Nat) (p : Quad) : Prop :=
   p.x < 2 ^ l ∧ p.y < 2 ^ l ∧ (l = 0 ∨ hot l p = true) ∧ Meets L (g.box l p)
@@ -70,7 +70,7 @@ theorem child_parent (p : Quad) (q : Nat) (hq : q < 4) : ((p.child q).x / 2 = p.
   constructor <;> omega
 
 theorem snapLevel_spec (li : Seg → Box → Bool) (g : Grid) (hot : Nat → Quad → Bool) (L : Seg)
-    (hli : ∀ B, li L B = true ↔ Meets L B) (hres : 0 < g.res) (hclosed : HotClosed hot) :
+    (hli : ∀ B, li L B = true ↔ Meets L B) (hres : 0 < g.res) (hclosed : HotClosed g.depth hot) :
     ∀ l, l ≤ g.depth →
       (∀ p, p ∈ snapLevel li g hot L l ↔ Found g hot L l p) ∧
       (snapLevel li g hot L l).Pairwise (fun a b => Precedes L (g.box l a) (g.box l b)) := by
@@ -124,7 +124,7 @@ theorem snapLevel_spec (li : Seg → Box → Bool) (g : Grid) (hot : Nat → Qua
           · rw [pow_succ] at cy; simp only; omega
           · by_cases h0 : l = 0
             · exact Or.inl h0
-            · exact Or.inr (hclosed l c (by omega) hhot)
+            · exact Or.inr (hclosed l c (by omega) hl hhot)
           · obtain ⟨t, mt⟩ := hm
             have hsub := child_box_sub g l hl' hres ⟨c.x / 2, c.y / 2⟩ q hq4
             (try dsimp only at hsub)
